@@ -127,6 +127,14 @@ def schemas():
         'barcan': ([Q('Universal', x, L(Fx))], L(Q('Universal', x, Fx))),
         'qmodal': ([M(Q('Existential', x, Fx))], Q('Existential', x, M(Fx))),
         'two-univ': ([Q('Universal', x, Q('Existential', y, P(H2, x, y)))], Q('Existential', y, Q('Universal', x, P(H2, x, y)))),
+        # order-sensitive shapes: a constant that first occurs inside a later quantified premise / under a later modal premise
+        'ord-univ-const': ([Q('Universal', x, Fx), Q('Universal', x, P(H2, x, ca))], Q('Existential', x, O('Conjunction', Fx, P(H2, x, ca)))),
+        'ord-univ-const2': ([Q('Universal', x, O('MaterialConditional', Fx, Gx)), Q('Universal', x, P(H2, x, cb)), Q('Universal', x, Fx)],
+                            Q('Existential', x, O('Conjunction', Gx, P(H2, x, cb)))),
+        'ord-exist-univ': ([Q('Existential', x, Fx), Q('Universal', x, O('MaterialConditional', Fx, P(H2, x, ca)))],
+                           Q('Existential', x, P(H2, x, ca))),
+        'ord-nec-poss': ([L(a), M(b), L(O('MaterialConditional', a, c)), M(Neg(c))], M(O('Conjunction', a, b))),
+        'ord-nec-nec': ([L(L(a)), M(M(b))], M(M(O('Conjunction', a, b)))),
     }
     return {k: {'prems': v[0], 'conc': v[1]} for k, v in out.items()}
 
@@ -140,9 +148,12 @@ def kinds_for(logic, modal, quantified):
     return ks
 
 
-def corpus(seed, per_logic, logic_meta, tag):
+def corpus(seed, per_logic, logic_meta, tag, with_systematic=False):
     """logic_meta: {name: (modal, quantified)}; yields (logic, label, arg)"""
     sch = schemas()
+    if with_systematic:
+        sch = dict(sch)
+        sch.update({'sys:' + k: v for k, v in systematic().items()})
     for L, (modal, quant) in sorted(logic_meta.items()):
         rng = random.Random(f'{seed}/{tag}/{L}')
         for k, a in sch.items():
@@ -151,3 +162,61 @@ def corpus(seed, per_logic, logic_meta, tag):
         for n in range(per_logic):
             kind = ks[n % len(ks)]
             yield L, f'rand:{kind}:{n}', rand_argument(rng, kind, modal)
+
+
+def systematic(prop_only=False):
+    """One-rule arguments: for every operator / quantifier / modal shape, small arguments whose verdict hinges on
+    the rule for that shape in premise (designated/true) and conclusion (undesignated/negated) position, alone and
+    in contexts that force gluts or gaps on an operand."""
+    a, b, c = A(0), A(1), A(2)
+    ca, cb = C(0), C(1)
+    x = V(0)
+    Fx, Fa, Fb, Ga = P(F1, x), P(F1, ca), P(F1, cb), P(G1, ca)
+    out = {}
+
+    def add(name, prems, conc):
+        out[name] = {'prems': prems, 'conc': conc}
+
+    shapes = [(op, O(op, a, b)) for op in BIN] + [(op, O(op, a)) for op in UN if op != 'Negation'] + [('DoubleNeg', Neg(Neg(a)))]
+    for op, s in shapes:
+        for tag, S in ((op, s), ('Neg' + op, Neg(s))):
+            add(f'{tag}:elim-a', [S], a)
+            add(f'{tag}:elim-na', [S], Neg(a))
+            add(f'{tag}:intro-a', [a], S)
+            add(f'{tag}:intro-na', [Neg(a)], S)
+            add(f'{tag}:intro-b', [b], S)
+            add(f'{tag}:intro-nb', [Neg(b)], S)
+            add(f'{tag}:mp', [S, a], b)
+            add(f'{tag}:mt', [S, Neg(b)], Neg(a))
+            add(f'{tag}:glut-a', [S, a, Neg(a)], c)
+            add(f'{tag}:glut-b', [S, b, Neg(b)], c)
+            add(f'{tag}:gap', [S], O('Disjunction', c, O('Disjunction', a, Neg(a))))
+            add(f'{tag}:self', [S], S)
+            if len(s[2]) == 2:
+                # literal contexts: the verdict depends on exactly one region of the operator's table
+                for la, ta in ((a, 'a'), (Neg(a), 'na')):
+                    for lb, tb in ((b, 'b'), (Neg(b), 'nb')):
+                        add(f'{tag}:cell-{ta}-{tb}', [S, la, lb], c)
+    if prop_only:
+        return out
+    for q in ('Existential', 'Universal'):
+        for tag, S in ((q, Q(q, x, Fx)), ('Neg' + q, Neg(Q(q, x, Fx)))):
+            add(f'{tag}:from-Fa', [Fa], S)
+            add(f'{tag}:from-nFa', [Neg(Fa)], S)
+            add(f'{tag}:to-Fa', [S], Fa)
+            add(f'{tag}:to-nFa', [S], Neg(Fa))
+            add(f'{tag}:ctx', [S, Ga, Neg(Fb)], Fa)
+            add(f'{tag}:ctx2', [S, Fb], Neg(Fa))
+            add(f'{tag}:glut', [S, Fa, Neg(Fa)], c)
+            add(f'{tag}:dual', [S], Neg(Q('Universal' if q == 'Existential' else 'Existential', x, Neg(Fx))))
+    for m in MOD:
+        for tag, S in ((m, O(m, a)), ('Neg' + m, Neg(O(m, a)))):
+            add(f'{tag}:from-a', [a], S)
+            add(f'{tag}:from-na', [Neg(a)], S)
+            add(f'{tag}:to-a', [S], a)
+            add(f'{tag}:to-na', [S], Neg(a))
+            add(f'{tag}:dual', [S], Neg(O('Necessity' if m == 'Possibility' else 'Possibility', Neg(a))))
+            add(f'{tag}:nest', [O('Possibility', b), S], O('Possibility', O('Conjunction', a, b)))
+            add(f'{tag}:nest2', [O('Necessity', O('MaterialConditional', a, b)), S], O(m, b))
+            add(f'{tag}:glut', [S, O('Necessity', O('Conjunction', a, Neg(a)))], c)
+    return out
